@@ -367,9 +367,23 @@ def obsJson (o : LoadObs) : Json :=
 
 def implObs (impl : Json) : LoadObs := ⟨boolOf impl "err", boolOf impl "nil", implBlocks impl⟩
 
+/-- `base(listURL)` by the model, for list URLs on the harness' server (`S` = its origin) whose path is in the
+modelled class; `none`: outside the class, the real function's answer is used -/
+def modelBase (listURL : List Char) : Option (List Char) :=
+  match listURL with
+  | 'S' :: path => if plainPath path then some (baseOf ['S'] path) else none
+  | _ => none
+
 def urlH (inp impl : Json) : Verdict :=
   let listURL := (strOf inp "url").toList
-  let base := (optStrOf impl "base").map String.toList
+  let oracle := (optStrOf impl "base").map String.toList
+  -- the model's own `base` where it applies (and then it must be what the real function said)
+  let baseOk := match modelBase listURL with
+    | some b => oracle == some b
+    | none => true
+  let base := match modelBase listURL with
+    | some b => some b
+    | none => oracle
   let srv := serverOf inp impl listURL base
   let run := loadURLRun true (fun _ => base) srv id listURL
   let mo := obsOf run.2
@@ -399,7 +413,7 @@ def urlH (inp impl : Json) : Verdict :=
           | none => (⟨false, false, canonMap (names.filterMap fun p => (bodyOf (srv (b ++ p))).map fun x => (b ++ p, x))⟩,
               if names.isEmpty then "ok-empty-list" else "ok")
   { model := Json.mkObj [("load", obsJson mo), ("requests", Json.arr (run.1.map fun u => Json.str (String.ofList u)).toArray)],
-    agree := mo == io && reqOk, spec := io == want,
+    agree := mo == io && reqOk && baseOk, spec := io == want,
     nontrivial := !listURL.isEmpty && base.isSome && isOk200 listF && !names.isEmpty, tag := tag }
 
 /-- what `os.ReadFile` returns for an entry, as the harness canonicalises it -/
@@ -571,8 +585,11 @@ def sourceH : Handler := fun inp impl => do
   let kind := strOf inp "kind"
   let epochs := arrOf inp "epochs"
   if epochs.isEmpty then throw "no epochs"
-  let base := ((optStrOf impl "base").getD "").toList
   let listURL := (strOf inp "url").toList
+  let oracleBase := ((optStrOf impl "base").getD "").toList
+  -- `base` by the model where the list URL is in the modelled class (it must then be what the real function said)
+  let base := if kind == "url" then (modelBase listURL).getD oracleBase else oracleBase
+  let baseOk := kind != "url" || base == oracleBase
   let script : Array (LoadResult Mat) := (epochs.map fun e =>
     ((if kind == "url" then srcLoadURL base listURL e else srcLoadPath e).map matOfMap)).toArray
   let refresh := intOf inp "refresh_ms" * 1000000
@@ -582,7 +599,7 @@ def sourceH : Handler := fun inp impl => do
   let iCalls := intOf impl "calls" (-99)
   let iPubs := natLists impl "pubs"
   let iRet := boolOf impl "returned"
-  let agree := iCalls == o.calls && iPubs == o.pubs && iRet == o.returned
+  let agree := iCalls == o.calls && iPubs == o.pubs && iRet == o.returned && baseOk
   -- the property on the implementation's own output: no spin, and every published set is the set of an epoch in
   -- which the source delivered everything it announced (never what is left of a failing or partly failing load)
   let canonM (m : Mat) : Mat := m.map fun b => b.mergeSort (fun a b => lexLe a.1 b.1)
